@@ -129,10 +129,24 @@ class Built:
         if self.syn is None:
             self.inp = ReconciliationInput(self.gt, LowestCommonAncestor(self.st), lm, **kw)
         else:
-            ls = {self.gnode[v]: list(fs) for v, fs in self.syn.items()}
+            ls = {self.gnode[v]: self._syn_value(fs) for v, fs in self.syn.items()}
             if self.root_order is not None:
-                ls[self.gt] = list(self.root_order)
+                ls[self.gt] = self._syn_value(self.root_order)
             self.inp = SuperReconciliationInput(self.gt, LowestCommonAncestor(self.st), lm, leaf_syntenies=ls, **kw)
+
+    def _syn_value(self, fs):
+        """The container in which a synteny is handed to the package: a list (default), a tuple, a string of
+        one-letter family names, or (unordered inputs) a set / frozenset - all legal sequences / collections."""
+        form = self.case.get("syn_form")
+        if form == "tuple":
+            return tuple(fs)
+        if form == "str" and all(isinstance(f, str) and len(f) == 1 for f in fs):
+            return "".join(fs)
+        if form == "set":
+            return set(fs)
+        if form == "frozenset":
+            return frozenset(fs)
+        return list(fs)
 
     def reindexed_inplace(self, rng=None):
         """History workload: reverse child order at (random) internal nodes of the SAME ete3 node objects, both trees,
@@ -148,9 +162,9 @@ class Built:
         if self.syn is None:
             self.inp = ReconciliationInput(self.gt, LowestCommonAncestor(self.st), lm, **kw)
         else:
-            ls = {self.gnode[v]: list(fs) for v, fs in self.syn.items()}
+            ls = {self.gnode[v]: self._syn_value(fs) for v, fs in self.syn.items()}
             if self.root_order is not None:
-                ls[self.gt] = list(self.root_order)
+                ls[self.gt] = self._syn_value(self.root_order)
             self.inp = SuperReconciliationInput(self.gt, LowestCommonAncestor(self.st), lm, leaf_syntenies=ls, **kw)
         return self.inp
 
